@@ -534,9 +534,14 @@ Inductive rt_row :=
 | RtRow (method pattern : string) (segs : list seg) (handler reg : string)
 | RtUnknown (pos why : string).
 
+(* a row IS the registration of route r when method and pattern agree.  The NAME of the Go function that serves it is
+   not part of the identity: handlers may be renamed, merged into a factory (consumerStatusHandler(showAll)) or split
+   without any change of behaviour; [route_handler] only documents the name at the time of modelling.  What the handler
+   does is tied per request by the differential, and which requests it can construct by [request_types_ok], which
+   looks the handler up under the name the TABLE gives. *)
 Definition row_is (r : route) (row : rt_row) : bool :=
   match row with
-  | RtRow m p _ h _ => String.eqb m (route_method r) && String.eqb p (route_pattern r) && String.eqb h (route_handler r)
+  | RtRow m p _ _ _ => String.eqb m (route_method r) && String.eqb p (route_pattern r)
   | RtUnknown _ _ => false
   end.
 
@@ -641,18 +646,29 @@ Definition fetch_name (s : string) : bool := String.prefix "StorageFetch" s.
 Definition hreq_for (h : string) (hr : list hreq) : option hreq :=
   find (fun x => match x with HReq n _ _ _ => String.eqb n h end) hr.
 
-(* For every modelled route except /metrics the Go handler constructs exactly the request types the model
-   issues; and every handler registered under GET (including /metrics) constructs only Fetch types. *)
-Definition request_types_ok (hr : list hreq) : bool :=
+(* the Go function the table registers for route r *)
+Definition row_handler_of (r : route) (tbl : list rt_row) : option string :=
+  match find (row_is r) tbl with
+  | Some (RtRow _ _ _ h _) => Some h
+  | _ => None
+  end.
+
+(* For every modelled route except /metrics the Go function registered for it constructs exactly the request types the
+   model issues; and every function registered under GET (including /metrics) constructs only Fetch types. *)
+Definition request_types_ok (tbl : list rt_row) (hr : list hreq) : bool :=
   forallb (fun r =>
-    match hreq_for (route_handler r) hr with
+    match row_handler_of r tbl with
     | None => false
-    | Some (HReq _ tys ev _) =>
-        (match r with
-         | RMetrics => true
-         | _ => same_set tys (map req_type_name (route_req_types r)) && Bool.eqb ev (route_evals r)
-         end)
-        && (negb (is_get r) || forallb fetch_name tys)
+    | Some h =>
+        match hreq_for h hr with
+        | None => false
+        | Some (HReq _ tys ev _) =>
+            (match r with
+             | RMetrics => true
+             | _ => same_set tys (map req_type_name (route_req_types r)) && Bool.eqb ev (route_evals r)
+             end)
+            && (negb (is_get r) || forallb fetch_name tys)
+        end
     end) all_routes.
 
 Close Scope string_scope.
